@@ -25,10 +25,18 @@ META = {
                   "specification's. Runs of 2..16 callers x up to 50 calls (seeded gate scheduler with 1..3 WatchKey/WatchPrefix watchers, and "
                   "free-running goroutines) are recorded from the real stores and accepted by TLC only if they are behaviours of the same specification "
                   "in which every watcher, after quiescence, has been called with the latest value and only ever with values the store held, in order. "
+                  "Also replayed at every point of the 2-caller graph: a CAS on ANOTHER key of the same store through the same client (action Other - "
+                  "this key's callers, Get on the client / the wrapped store / the mirror must not notice; the sibling key sees exactly its own history; "
+                  "List names exactly the keys that hold a value), and f returning a value the store cannot take (action Bad: the codec refuses it / "
+                  "it is not a Mergeable - nothing is written, Consul and etcd consume the attempt and re-read whatever f's retry flag says, memberlist "
+                  "only if it says so). Half of the callers (which half depends on the seed; the graphs are symmetric in the callers) run f IN PLACE: "
+                  "they edit the value they were handed and return it, scribble on it before declining / failing, and go on writing to every value "
+                  "they returned after the call is over - the store must never share memory with a value it handed out or was handed. "
                   "Thorough also: watcher liveness (EventuallyLatest) on the specification; and, outside C07's quantifier, conformance of the "
                   "specification's Delete model to the Consul/etcd mocks and of KVMulti.tla (MultiClient primary switch with CAS calls in flight) to the "
                   "real MultiClient.",
-    "level_note": "Bounds: exhaustive only for <=3 callers x 2 calls on one key; recorded runs keep callers x calls <= 100 so that values stay small. "
+    "level_note": "Bounds: exhaustive only for <=3 callers x 2 calls on one key (plus <=2 writes to one sibling key, modelled only through the frame "
+                  "condition and the store-wide write counter; concurrent callers on several keys are not a state of the specification); recorded runs keep callers x calls <= 100 so that values stay small. "
                   "Trusted: TLC, testing/synctest quiescence, the harness value type (grow-only set of (caller, call, position); a memberlist Mergeable). "
                   "The granularity of the specification is the f callback (a failed comparison and the following re-read are one step). The metrics "
                   "wrapper and the MultiClient can only be built over the process-wide in-memory Consul store and a memberlist KV (unexported "
@@ -46,9 +54,10 @@ ALL = '{"consul", "etcd", "memberlist"}'
 INV = "Serial SeenChain NoLostNoPhantom SawCurrent"
 
 
-def subst(nc, ops, maxerr, emit, backends=ALL, secondaries='{"none"}', limits="{10}", delete=False, inv=INV, same=False, nw=0):
+def subst(nc, ops, maxerr, emit, backends=ALL, secondaries='{"none"}', limits="{10}", delete=False, inv=INV, same=False, nw=0, bad=False, nother=0):
     return {"@@NC@@": nc, "@@OPS@@": ops, "@@BACKENDS@@": backends, "@@LIMITS@@": limits, "@@MAXERR@@": maxerr,
             "@@SECONDARIES@@": secondaries, "@@DELETE@@": "TRUE" if delete else "FALSE", "@@SAME@@": "TRUE" if same else "FALSE", "@@NW@@": nw,
+            "@@BAD@@": "TRUE" if bad else "FALSE", "@@NOTHER@@": nother,
             "@@EMIT@@": "TRUE" if emit else "FALSE", "@@INV@@": inv}
 
 
@@ -200,7 +209,8 @@ def run(ctx):
 
     # 1. the property, exhaustively: 3 callers x 2 calls, all three stores
     #    (thorough: f may also fail-with-retry once per call and return its input unchanged - Same / Tick)
-    r = tlc(ctx, "property 3x2", subst(3, 2, 1 if thorough else 0, False, same=thorough), timeout=1500, coverage=thorough)
+    r = tlc(ctx, "property 3x2", subst(3, 2, 1 if thorough else 0, False, same=thorough, bad=thorough, nother=1 if thorough else 0),
+            timeout=1500, coverage=thorough)
     ctx.extra["property_states_3x2"] = r.distinct
 
     # 2. every transition of the 2x2 graph (all stores, MultiClient setups) on the real clients, and retry-limit
@@ -215,6 +225,11 @@ def run(ctx):
             # error from f - must report failure and leave the value alone, bare and behind the wrappers
             ("limit2", tlc(ctx, "gen limit 2", subst(2, 2, 2 if thorough else 0, True, limits="{2, 3}" if thorough else "{2}",
                                                      secondaries='{"none", "consul"}', same=thorough), timeout=600))]
+    # frame condition and unstorable outputs: writes to ANOTHER key of the same store (through the same client) at every
+    # point of the graph - this key's callers must not notice, Get / List must show both cells - and f returning a value
+    # the codec cannot serialise / that is not a Mergeable (nothing written; consul and etcd retry whatever the flag says)
+    gens.append(("frame", tlc(ctx, "gen other key + unstorable", subst(2, 2 if thorough else 1, 1, True, bad=True, nother=2,
+                                                                     secondaries='{"none", "consul", "memberlist"}'), timeout=900)))
     if thorough:
         # 3 callers x 1 call behind every wrapper, with the default limit and with limit 2
         gens.append(("limit2x3", tlc(ctx, "gen limit 2, 3 callers", subst(3, 1, 2, True, limits="{2}", secondaries='{"none", "consul"}', same=True), timeout=600)))
